@@ -331,6 +331,10 @@ def work(task, res: Result):
             res.case(desc, False, f"{strategy}/{pd}/{solver}/solver-numerical-failure")
             continue
         except Exception as e:
+            if isinstance(e, ValueError) and "math domain error" in str(e):
+                # same breakdown surfacing as sqrt of a negative number inside cvxopt's scaling update
+                res.case(desc, False, f"{strategy}/{pd}/{solver}/solver-numerical-failure")
+                continue
             if strategy == "unambiguous" and type(e).__name__ in ("SolutionFailure",):
                 res.case(desc, False, f"{strategy}/{pd}/{solver}/no-solution")
                 continue
@@ -536,6 +540,15 @@ def run(ctx, model_ok=True):
     rng = ctx.rng
     quick = ctx.tier == "quick"
     _tier = ctx.tier  # inherited by the forked workers
+    # import the heavy modules once in the parent: forked workers inherit them, so no C-extension initialisation can be
+    # interrupted by a task timeout on a loaded machine
+    import cvxopt  # noqa: F401
+    import cvxpy  # noqa: F401
+    import picos  # noqa: F401
+    import toqito.state_opt  # noqa: F401
+    import toqito.state_props  # noqa: F401
+    import toqito.states  # noqa: F401
+    warnings.filterwarnings("ignore")
     # matchers for defects of the unchanged tree, active only if the maintainer records them as known findings
     ctx.matchers["excl_primal_complex_typeerror"] = lambda info: (info.get("function") == "state_exclusion" and info.get("args", {}).get("primal_dual") == "primal"
                                                                    and info.get("cplx") and "TypeError" in info.get("exception", ""))
@@ -548,9 +561,10 @@ def run(ctx, model_ok=True):
     for s in solvers:
         calls += [("min_error", "primal", s), ("min_error", "dual", s), ("unambiguous", "primal", s), ("unambiguous", "dual", s)]
     fam = family_instances(rng, 1 if quick else 6)
-    n_inst = 120 if quick else 1200
+    n_inst = 100 if quick else 1200
     insts = [gen_instance(rng) for _ in range(n_inst)]
-    tasks = [(inst, [c for c in calls if c[0] == "min_error"]) for inst in fam] + [(inst, calls) for inst in insts]
+    # the unambiguous pair (slow and often numerically failing in CVXOPT) runs on every second random instance in the quick tier
+    tasks = [(inst, [c for c in calls if c[0] == "min_error"]) for inst in fam] + [(inst, calls if (not quick or i % 2 == 0) else [c for c in calls if c[0] == "min_error"]) for i, inst in enumerate(insts)]
     run_pool(ctx, work, tasks)
     anti_tasks = fam + insts[: (40 if quick else 400)]
     run_pool(ctx, work_anti, anti_tasks)
